@@ -248,7 +248,7 @@ def replay_histories(binpath, histories, tag):
     os.makedirs(d)
     inp = os.path.join(d, "in.json")
     json.dump(histories, open(inp, "w"))
-    ok, out = run_harness(binpath, ["replay", "-in", inp], os.path.join(d, "out"))
+    ok, out = run_harness(binpath, ["replay", "-in", inp, "-shards", str(16 if len(histories) >= 32 else 1)], os.path.join(d, "out"))
     if not ok:
         return None, "harness replay failed: " + out[-2000:]
     meta, verdicts, errors = evaluate_dir(os.path.join(d, "out"))
@@ -542,7 +542,7 @@ def main(argv):
         # The correspondence is broken but P held on everything explored so far:
         # search near the disagreeing histories (area-specific extensions of the
         # history up to the disagreeing step) for an input on which P fails.
-        mism = [p for p in problems if p[0] == "mismatch"][:6]
+        mism = [p for p in problems if p[0] == "mismatch"][:3]
         kinds = cfg.get("violation_kinds")
         for (_, _, v) in mism:
             cands = cfg["extend"](v["history"], v["step"])
